@@ -302,18 +302,21 @@ def proto_data_received(u: U):
 
     class _Msg:
         should_close = msg_close
-        code = (200, 204)[u.choose(2, "message.code")] if has_parser and not parse_fails else 200
+        code = (200, 204, 100, 102)[u.choose(4, "message.code")] if has_parser and not parse_fails else 200
 
     class _Pl:
         def on_eof(self, cb):
             log.append(("on_eof",))
+
+    dropped = []
 
     class _Parser:
         def feed_data(self, d):
             log.append(("http.feed", d))
             if parse_fails:
                 raise Boom("bad")
-            return [(_Msg(), _Pl())] * n_msgs, False, b""
+            # the parser hands EMPTY_PAYLOAD out for a message that cannot have a body (1xx, 204, 304)
+            return [(_Msg(), "EMPTY" if _Msg.code in (100, 102, 204) else _Pl())] * n_msgs, False, b""
 
     class _PP:
         def feed_data(self, d):
@@ -331,12 +334,12 @@ def proto_data_received(u: U):
                "_payload": None, "_skip_payload": u.choose(2, "skip_payload") == 1 if has_parser and not parse_fails else False,
                "_read_timeout_handle": "ARMED-TIMER" if u.choose(2, "read_timer_armed") else None,
                "_read_timeout": u.real("read_timeout")},
-              {"_reschedule_timeout": lambda self: rearmed.append(True), "_drop_timeout": lambda self: None,
+              {"_reschedule_timeout": lambda self: rearmed.append(True), "_drop_timeout": lambda self: dropped.append(len(rearmed)),
                "feed_data": lambda self, item: log.append(("queue", item)),
                "set_exception": lambda self, exc, cause=None: log.append(("set_exception", type(exc).__name__))},
               shared=False, real=(PROTO, "ResponseHandler"), init=(PROTO, "ResponseHandler.__init__", ("LOOP",), {}))
     f = u.load(PROTO, "ResponseHandler.data_received",
-               globals={"EMPTY_PAYLOAD": "EMPTY", "EMPTY_BODY_STATUS_CODES": frozenset({204, 304})})
+               globals={"EMPTY_PAYLOAD": "EMPTY", "EMPTY_BODY_STATUS_CODES": frozenset({204, 304}) | frozenset(range(100, 200))})
     u.loop("client_proto:ResponseHandler.data_received", 0, unroll=True, bound=3)
     out = u.call(f, p, data)
     u.check("C06.data.total", out.ok, f"no exception escapes into the event loop: {out!r}")
@@ -361,6 +364,12 @@ def proto_data_received(u: U):
                 "a parse error closes the transport and records the error: nothing of it is delivered")
         return
     u.check("C06.data.messages_queued", names.count("queue") == n_msgs, "every complete message is queued")
+    if n_msgs and _Msg.code in (100, 102):
+        # an interim response: the exchange goes on, the caller (ClientResponse.start) loops back to protocol.read()
+        u.check("C18.sockread.interim_response_keeps_the_timer", Implies(blen(data) > 0, not dropped),
+                "after an interim 1xx response the client is still awaiting headers: the sock_read timer re-armed by "
+                "these bytes stays armed, so a peer that stalls after '102 Processing' / '100 Continue' is timed out",
+                known=[("F18a", True)], witness={"code": _Msg.code})
     if n_msgs:
         u.check("C06.data.close_announced_sticks", Implies(msg_close, fs["_should_close"] is True),
                 "Connection: close (or HTTP/1.0 without keep-alive) marks the protocol unusable")
